@@ -293,6 +293,56 @@ func dense() {
 	}
 }
 
+// lookalikes: messages that are not channel messages but carry bytes that look
+// like one (an escape wrapping a channel message, sysex and meta payloads full
+// of status bytes, a meta type that looks like a status), between real channel
+// messages: they belong on the first track, whatever they contain.
+func lookalikes() {
+	odd := [][]byte{
+		{0xF7, 0x92, 0x3C, 0x40},                    // escape carrying a note-on for channel 2
+		{0xF7, 0xC5, 0x01},                          // escape carrying a program change
+		{0xF7, 0x3C, 0x40},                          // escape carrying data bytes
+		{0xF0, 0x93, 0x3C, 0x40, 0xF7},              // sysex whose payload looks like a note-on
+		{0xF0, 0xF7},                                // empty sysex
+		smf.MetaText("\x91\x3C\x40"),               // text made of a note-on
+		smf.MetaUndefined(0x11, []byte{0x95, 1, 2}), // unknown meta with a status-like payload
+		smf.MetaSequencerData([]byte{0xB3, 7, 100}), // sequencer data that looks like a controller
+		smf.MetaChannel(7), smf.MetaPort(3),
+	}
+	for oi, om := range odd {
+		for pos := 0; pos < 4; pos++ {
+			for _, first := range []bool{false, true} {
+				s := smf.New()
+				var t smf.Track
+				var src []refsmf.Event
+				add := func(d uint32, m []byte) {
+					t.Add(d, m)
+					src = append(src, refsmf.Event{Delta: d, Msg: m})
+				}
+				chans := [][]byte{midi.NoteOn(2, 60, 100), midi.NoteOn(5, 61, 90), midi.NoteOff(2, 60), midi.ProgramChange(7, 1)}
+				if first {
+					add(0, smf.MetaText("t"))
+				}
+				for i, c := range chans {
+					if i == pos {
+						add(uint32(3*oi%5), om)
+					}
+					add(uint32(i), c)
+				}
+				t.Close(2)
+				src = append(src, refsmf.Event{Delta: 2, Msg: refsmf.EOT})
+				s.Add(t)
+				ctx.Eval()
+				ctx.Add("lookalike_files", 1)
+				sig, what := convCheck(s, src)
+				if sig != "" && ctx.SigCount(sig+":lookalike") < 10 {
+					ctx.Violation(sig+":lookalike", map[string]interface{}{"kind": "lookalike", "message": engine.Hex(om), "position": pos, "meta_first": first, "what": what})
+				}
+			}
+		}
+	}
+}
+
 func sortStrings(a []string) {
 	for i := 1; i < len(a); i++ {
 		for j := i; j > 0 && a[j] < a[j-1]; j-- {
@@ -340,6 +390,7 @@ func main() {
 	})
 	ctx.Jobs("search", len(jobs), func(j int) { sp.RunPlanCfgShard(ctx, jobs[j].p, jobs[j].cfg, jobs[j].op, check) })
 	ctx.Jobs("dense", 1, func(j int) { dense() })
+	ctx.Jobs("lookalikes", 1, func(j int) { lookalikes() })
 	ctx.Set("traces_validated_against_impl", ctx.GetInt("transitions"))
 	ctx.Set("max_depth", ctx.GetInt("max:depth"))
 	ctx.NontrivialN(ctx.GetInt("files_with_2plus_channels"))
@@ -351,6 +402,10 @@ func main() {
 func replay() {
 	m := ctx.LoadReplay()
 	var sig, what string
+	if m["kind"] == "lookalike" {
+		lookalikes()
+		ctx.Finish("replay")
+	}
 	if m["kind"] == "dense" {
 		s, src := denseCase(int(m["n"].(float64)), m["kinds"].(string), m["deltas"].(string), m["close"].(float64) > 0, uint32(m["close"].(float64)-1)*5)
 		sig, what = convCheck(s, src)
